@@ -1,7 +1,461 @@
-import LasioModel.Transform
-/- C09 — placeholder while the harness is brought up (replaced by the proofs) -/
-namespace Lasio.Tf
+import LasioProofs.Lemmas.TransformSim
+import LasioProofs.Props.C02
+import LasioProofs.Props.C04
+import LasioProofs.Props.C05
+/-
+C09 — reading is invariant under presentation-only changes of the text.
 
-theorem C09_applyAll_nil (d : Doc) : applyAll [] d = d := rfl
+Models: the transformations `LasioModel/Transform.lean` (`Lasio.Tf`: total functions on the list of physical lines; the harness
+applies the same functions to the input of the real reader), the header-level reader `Lasio.Rd`, the data-section reader
+`Lasio.Dt`, glued by `Tf.readFull` / `Tf.readModel` (header items of every section, ~Other text, curves of every data section).
+
+WHAT IS PROVED
+* line level   `C09_crlf_line`, `C09_lf_line`, `C09_padding_line`, `C09_final_newline_line`: the line functions keep `strip()`,
+               hence (`C09_strip_is_all`) every reader sees the same line; `C09_repad_data`: a quote-free data line re-padded is
+               the same line for the data reader with the whitespace splitter (items for every set of substitutions, sniffer
+               sample, genfromtxt tokens); `C09_header_padding`: two layouts of conformant fields parse to the same fields (C04).
+* window level `C09_blank_data`, `C09_comment_data` (via `C09_skip_data`): flat item sequence, sniffer (21-line sample, hyphen
+               rule) and `readData` unchanged, the engine possibly changing from numpy to normal; `C09_rewrap`: any
+               re-partition of the words of a WRAP=YES section over physical lines; `C09_blank_header`/`C09_comment_header`.
+* whole file   `C09_step`: every transformation of the list below, applied to a readable document satisfying its explicit side
+               condition `OK`, leaves `readModel` unchanged; `C09_compose`: so does every finite composition whose side
+               conditions hold along the way (induction on the list — the step no finite test matrix supplies).
+  Covered by `OK`: insBlank, insComment, padLine (title lines included), repadLine for the SPACE delimiter, relayout of a header
+  item line (through C04: `Conf`, `PadOK`), crlf, lf, dropFinalNewline, addFinalNewline, rewrap.  NOT covered (`OK = False`,
+  tested by the harness only): repadLine for TAB / COMMA (the padding stays inside the cell text: known finding dlm-pad-text),
+  redelim.
+* hypotheses   `TildeNotFloat ft` (float() rejects tokens starting with '~'), base readable, and — only when the numpy engine is
+               in effect — the two engines agree on every data section of the base (`AgreeAlone`; `C09_agree_of_plain`: true of
+               every PlainData section, C02).  Counter-examples: `C09_agree_needed` (mid-line '#'), `C09_quote_needed`,
+               `C09_crlf_needs_physical_line`, `C09_rewrap_needs_hyphen_neutral`, `C09_other_is_content`.
+-/
+namespace Lasio.Tf
+open Lasio Lasio.Dt
+
+/-! ## 1. line level -/
+
+/-- everything the readers compute from a physical line is computed from its `strip()` -/
+theorem C09_strip_is_all (dlm : Dlm) (a b : Str) (h : strip a = strip b) :
+    Rd.isTitle a = Rd.isTitle b ∧ Rd.sline a = Rd.sline b ∧ Rd.lineStrip a = Rd.lineStrip b ∧
+    (∀ o p, Rd.lineRes o p a = Rd.lineRes o p b) ∧ DataEq dlm a b :=
+  ⟨isTitle_strip_congr h, sline_strip_congr h, lineStrip_strip_congr h, fun o p => lineRes_of_strip o p h, dataEq_of_strip dlm h⟩
+
+/-- LF → CRLF on a physical line (`\n` only at its end): `'\r'` is a blank for `strip()` -/
+theorem C09_crlf_line (l : Str) (h : NoInnerNl l) : strip (crlf1 l) = strip l := crlf1_strip l h
+
+/-- the hypothesis is needed: a line feed INSIDE a string is not a line end for the model's `strip` -/
+theorem C09_crlf_needs_physical_line : strip (crlf1 "a\nb".toList) ≠ strip "a\nb".toList := by decide
+
+theorem C09_lf_line (l : Str) : strip (lf1 l) = strip l := lf1_strip l
+
+/-- new blanks/TABs around a line (title lines included) -/
+theorem C09_padding_line (lead trail l : Str) : strip (padLine1 lead trail l) = strip l := padLine1_strip lead trail l
+
+/-- omitting / adding the final newline: the line without its terminator, the line with one -/
+theorem C09_final_newline_line (l : Str) : strip (splitEol l).1 = strip l ∧ strip (termLine l) = strip l :=
+  ⟨strip_splitEol l, termLine_strip l⟩
+
+/-- REPAD (SPACE delimiter): every run of blanks between the words of a quote-free data line replaced by another non-empty
+run, leading and trailing runs removed: the same items for the normal engine under every set of read substitutions, the same
+sample for the sniffer, the same tokens for genfromtxt. -/
+theorem C09_repad_data (seps : List Str) (l : Str) (hq : QuoteFree l) : DataEq .space l (relayLine1 .space .space seps l) :=
+  relay_space_dataEq seps l hq
+
+/-- more generally: two quote-free lines with the same words -/
+theorem C09_repad_data_words (a b : Str) (ha : QuoteFree a) (hb : QuoteFree b) (h : pySplit a = pySplit b) : DataEq .space a b :=
+  dataEq_of_words a b ha hb h
+
+/-- quote-free is needed: blanks inside a quoted cell are content -/
+theorem C09_quote_needed :
+    lineTokens Subs.default .space "\"a  b\" 2".toList ≠
+      lineTokens Subs.default .space (relayLine1 .space .space [] "\"a  b\" 2".toList) := by decide
+
+/-- TAB / COMMA: padding blanks stay inside the cell text (numeric cells are unaffected because `float()` strips; text cells
+differ: known finding dlm-pad-text) -/
+theorem C09_repad_delimited_keeps_padding :
+    lineTokens Subs.commaDelimiter .comma (relayLine1 .comma .comma [" , ".toList] "1,abc".toList) = ["1 ".toList, " abc".toList] ∧
+    lineTokens Subs.commaDelimiter .comma "1,abc".toList = ["1".toList, "abc".toList] := by decide
+
+/-- HEADER LINE LAYOUT (corollary of `C04_main_all`): two layouts of the same conformant fields, each with admissible
+paddings, parse to the same fields -/
+theorem C09_header_padding (sec : SecName) (f : Fields) (p0 p1 p2 p3 p4 p5 q0 q1 q2 q3 q4 q5 : Str)
+    (hc : Conf sec f) (hp : PadOK sec f p0 p1 p2 p3 p4 p5) (hq : PadOK sec f q0 q1 q2 q3 q4 q5) :
+    parseHeaderLine sec (layoutFields f p0 p1 p2 p3 p4 p5) = parseHeaderLine sec (layoutFields f q0 q1 q2 q3 q4 q5) := by
+  have e : ∀ a0 a1 a2 a3 a4 a5, layoutFields f a0 a1 a2 a3 a4 a5 = layout f a0 a1 a2 a3 a4 a5 := fun _ _ _ _ _ _ => rfl
+  rw [e, e, C04_main_all sec f p0 p1 p2 p3 p4 p5 hc hp, C04_main_all sec f q0 q1 q2 q3 q4 q5 hc hq]
+
+/-- … and at the level of the reader's line loop: a header item line laid out again (`relayoutLine1`: parse, then
+`p0 name p1 . unit p2 value p3 : p4 descr p5` with new blanks/TABs) gives the same item, for every parser whose section name is
+`sec`; side condition `RelayOK` = the parsed fields are conformant (C04 `Conf`), the paddings met after `strip()` are admissible
+(C04 `PadOK`), neither the line nor the mnemonic starts with `#` or `~` -/
+theorem C09_header_relayout (o : Rd.ReadOpts) (p : Rd.Parser) (sec : SecName) (hsec : p.sec = sec) (p0 p1 p2 p3 p4 p5 a : Str)
+    (f : Fields) (h : RelayOK sec p1 p2 p3 p4 a f) :
+    Rd.lineRes o p a = Rd.lineRes o p (relayoutLine1 sec p0 p1 p2 p3 p4 p5 a) :=
+  (relayout_lineRes o p sec hsec p0 p1 p2 p3 p4 p5 a f h).1
+
+/-! ## 2. one data window -/
+
+/-- BLANK / COMMENT LINE IN THE DATA SECTION. The window `(first, last)` has the body `b₁ ++ b₂`; a blank or `#` comment line `s`
+is inserted anywhere in it — before the first line, between two lines, after the last one — and the window end moves by
+one.  For every delimiter and every set of substitutions the flat item sequence of the normal engine and the sniffer's
+result (its sample of 21 DATA lines, the hyphen rule) are unchanged; `readData` returns the same curves.  The engine that
+produced them may change from numpy to normal (genfromtxt's `max_rows` counts rows, so it runs into the next title line):
+this is why, with the numpy engine in effect, the two engines must agree on the base window (`AgreeAlone`). -/
+theorem C09_skip_data (o : DataOpts) (st : Steer) (d : Nat) (ft : FloatTable) (A A' : List Str) (t t' : Str)
+    (b₁ b₂ after after' : List Str) (s : Str) (hs : SkipLine s)
+    (ha : AfterOK ft after) (ha' : AfterOK ft after') (hagree : AgreeAlone o st d ft (b₁ ++ b₂)) :
+    (∀ sb dlm, normalTokens sb dlm (b₁ ++ s :: b₂) = normalTokens sb dlm (b₁ ++ b₂)) ∧
+    (∀ sb dlm, sniffB sb dlm (b₁ ++ s :: b₂) = sniffB sb dlm (b₁ ++ b₂)) ∧
+    (readData o (A' ++ t' :: ((b₁ ++ s :: b₂) ++ after')) A'.length (A'.length + (b₁ ++ s :: b₂).length) st d ft).map Prod.snd =
+      (readData o (A ++ t :: ((b₁ ++ b₂) ++ after)) A.length (A.length + (b₁ ++ b₂).length) st d ft).map Prod.snd := by
+  have hsim : ∀ dlm, BodySim dlm (b₁ ++ b₂) (b₁ ++ s :: b₂) := fun dlm => bodySim_insert dlm b₁ b₂ s hs
+  refine ⟨fun sb dlm => (bodySim_tokens dlm sb (hsim dlm)).symm, fun sb dlm => (bodySim_sniffB dlm sb (hsim dlm)).symm, ?_⟩
+  rw [readData_window, readData_window]
+  exact (readBody_sim o st d ft (hsim st.delimiter) ha ha' hagree).symm
+
+theorem C09_blank_data (o : DataOpts) (st : Steer) (d : Nat) (ft : FloatTable) (A : List Str) (t : Str)
+    (b₁ b₂ after : List Str) (ws : Str) (ha : AfterOK ft after) (hagree : AgreeAlone o st d ft (b₁ ++ b₂)) :
+    (readData o (A ++ t :: ((b₁ ++ (blanksOf ws ++ nl) :: b₂) ++ after)) A.length (A.length + (b₁ ++ (blanksOf ws ++ nl) :: b₂).length) st d ft).map Prod.snd =
+      (readData o (A ++ t :: ((b₁ ++ b₂) ++ after)) A.length (A.length + (b₁ ++ b₂).length) st d ft).map Prod.snd :=
+  (C09_skip_data o st d ft A A t t b₁ b₂ after after _ (blank_skip ws) ha ha hagree).2.2
+
+theorem C09_comment_data (o : DataOpts) (st : Steer) (d : Nat) (ft : FloatTable) (A : List Str) (t : Str)
+    (b₁ b₂ after : List Str) (indent text : Str) (ha : AfterOK ft after) (hagree : AgreeAlone o st d ft (b₁ ++ b₂)) :
+    (readData o (A ++ t :: ((b₁ ++ (commentLine indent text ++ nl) :: b₂) ++ after)) A.length
+        (A.length + (b₁ ++ (commentLine indent text ++ nl) :: b₂).length) st d ft).map Prod.snd =
+      (readData o (A ++ t :: ((b₁ ++ b₂) ++ after)) A.length (A.length + (b₁ ++ b₂).length) st d ft).map Prod.snd :=
+  (C09_skip_data o st d ft A A t t b₁ b₂ after after _ (comment_skip indent text) ha ha hagree).2.2
+
+/-- with the normal engine in effect (engine='normal', a wrapped file, or a non-strict null policy) nothing is assumed -/
+theorem C09_agree_trivial (o : DataOpts) (st : Steer) (d : Nat) (ft : FloatTable) (b : List Str)
+    (h : effectiveEngine o st = .normal) : AgreeAlone o st d ft b := agreeAlone_of_normal o st d ft b h
+
+/-- on PlainData (C02's domain: blank lines, comment lines, rows of `c` quiet tokens) the engines agree -/
+theorem C09_agree_of_plain (o : DataOpts) (st : Steer) (d : Nat) (ft : FloatTable) {body : List Str} {c : Nat} {rows : List (List Str)}
+    (h : PlainData ft body [] c rows) (hdlm : st.delimiter = .space) : AgreeAlone o st d ft body := by
+  obtain ⟨e, p⟩ := o
+  have h2 := C02_engines_agree ft p st d [] [] h hdlm
+  simp only [List.nil_append, List.length_nil, Nat.zero_add] at h2
+  have w1 := readData_window ⟨.numpy, p⟩ [] [] body [] st d ft
+  have w2 := readData_window ⟨.normal, p⟩ [] [] body [] st d ft
+  simp only [List.nil_append, List.length_nil, Nat.zero_add] at w1 w2
+  rw [w1, w2] at h2
+  have hn : readBody ⟨.normal, p⟩ st d ft body [] = normalRead ⟨.normal, p⟩ st d ft body := by
+    have : effectiveEngine ⟨.normal, p⟩ st = .normal := by unfold effectiveEngine; split <;> rfl
+    simp only [readBody, this]
+  cases e with
+  | normal => unfold AgreeAlone; rw [hn]
+  | numpy => unfold AgreeAlone; rw [h2, hn]; rfl
+
+def c09s (s : String) : Str := s.toList
+def ftH : FloatTable := [(c09s "1", c09s "a1"), (c09s "2", c09s "a2"), (c09s "3", c09s "a3"), (c09s "4", c09s "a4")]
+def stH : Steer := ⟨true, c09s "NO", none, .space⟩
+
+/-- `AgreeAlone` is needed (known finding numpy-midline-hash): on `1 2 # t` / `3 4 # u` genfromtxt cuts the lines at '#', the
+normal engine does not; a blank line inserted before the second row makes genfromtxt run into `~O`, and the normal engine
+answers with four columns -/
+theorem C09_agree_needed :
+    readData ⟨.numpy, .strict⟩ [c09s "~A\n", c09s "1 2 # t\n", c09s "3 4 # u\n", c09s "~O\n", c09s "x\n"] 0 2 stH 0 ftH =
+      .ok (.numpy, [(.extra, .floats [c09s "a1", c09s "a3"]), (.extra, .floats [c09s "a2", c09s "a4"])]) ∧
+    readData ⟨.numpy, .strict⟩ [c09s "~A\n", c09s "1 2 # t\n", c09s "\n", c09s "3 4 # u\n", c09s "~O\n", c09s "x\n"] 0 3 stH 0 ftH =
+      .ok (.normal, [(.extra, .floats [c09s "a1", c09s "a3"]), (.extra, .floats [c09s "a2", c09s "a4"]),
+                     (.extra, .text [c09s "#", c09s "#"]), (.extra, .text [c09s "t", c09s "u"])]) := ⟨by rfl, by rfl⟩
+
+/-- the engine may change while the curves do not: base read by numpy, with the blank line by the normal engine -/
+theorem C09_engine_may_change :
+    readData ⟨.numpy, .strict⟩ [c09s "~A\n", c09s "1 2\n", c09s "3 4\n", c09s "~O\n"] 0 2 stH 2 ftH =
+      .ok (.numpy, [(.declared 0, .floats [c09s "a1", c09s "a3"]), (.declared 1, .floats [c09s "a2", c09s "a4"])]) ∧
+    readData ⟨.numpy, .strict⟩ [c09s "~A\n", c09s "1 2\n", c09s "\n", c09s "3 4\n", c09s "~O\n"] 0 3 stH 2 ftH =
+      .ok (.normal, [(.declared 0, .floats [c09s "a1", c09s "a3"]), (.declared 1, .floats [c09s "a2", c09s "a4"])]) :=
+  ⟨by rfl, by rfl⟩
+
+/-- REWRAP. WRAP declared YES, `d ≥ 1` declared curves, default delimiter; the body satisfies `WrapOK` (quote-free; no token
+starts with `#` or `~`; the run-on(-) substitution is neutral on every token).  Laying the words of the data lines out again —
+`dcl` words per depth step, each step cut into lines of ANY widths, blank/comment lines moved to the front — gives the same
+flat item sequence, hence (`C07_binding` is stated on the flat sequence) the same curves. -/
+theorem C09_rewrap (o : DataOpts) (st : Steer) (d : Nat) (ft : FloatTable) (dcl : Nat) (widths : List Nat)
+    (A A' : List Str) (t t' : Str) (body after after' : List Str) (hs : WrapSteer st d) (h : WrapOK body) :
+    (∀ sb, normalTokens sb .space (rewrapBody dcl widths body) = normalTokens sb .space body) ∧
+    readData o (A' ++ t' :: (rewrapBody dcl widths body ++ after')) A'.length (A'.length + (rewrapBody dcl widths body).length) st d ft =
+      readData o (A ++ t :: (body ++ after)) A.length (A.length + body.length) st d ft := by
+  refine ⟨fun sb => by rw [normalTokens_rewrap sb dcl widths body h, normalTokens_words sb body h.qf], ?_⟩
+  rw [readData_window, readData_window]
+  exact readBody_rewrap o st d ft dcl widths body after after' hs h
+
+def stW : Steer := ⟨true, c09s "YES", none, .space⟩
+def ftD : FloatTable := [(c09s "5", c09s "a5"), (c09s "6", c09s "a6"), (c09s "2018", c09s "b2018"), (c09s "-05", c09s "b-5"),
+  (c09s "-22", c09s "b-22"), (c09s "-23", c09s "b-23")]
+
+/-- hyphen-neutrality is needed (known finding rewrap-hyphen-rule): with dates in every row the hyphen rule fires and the dates
+survive; one token per line, it does not fire and `2018-05-22` becomes `2018 -05 -22` -/
+theorem C09_rewrap_needs_hyphen_neutral :
+    readData ⟨.normal, .strict⟩ [c09s "~A\n", c09s "2018-05-22 5\n", c09s "2018-05-23 6\n"] 0 2 stW 2 ftD =
+      .ok (.normal, [(.declared 0, .text [c09s "2018-05-22", c09s "2018-05-23"]), (.declared 1, .floats [c09s "a5", c09s "a6"])]) ∧
+    rewrapBody 2 [1, 1] [c09s "2018-05-22 5\n", c09s "2018-05-23 6\n"] = [c09s "2018-05-22\n", c09s "5\n", c09s "2018-05-23\n", c09s "6\n"] ∧
+    readData ⟨.normal, .strict⟩ [c09s "~A\n", c09s "2018-05-22\n", c09s "5\n", c09s "2018-05-23\n", c09s "6\n"] 0 4 stW 2 ftD =
+      .ok (.normal, [(.declared 0, .floats [c09s "b2018", c09s "b-22", c09s "b2018", c09s "b-23"]),
+                     (.declared 1, .floats [c09s "b-5", c09s "a5", c09s "b-5", c09s "a6"])]) := ⟨by rfl, by rfl, by rfl⟩
+
+/-- the side conditions are decidable; a wrapped body with numbers, words and a negative value satisfies them, a body with a
+date does not (instance of `C09_rewrap` on the first: seven tokens per depth step over lines of 3+4 ↦ one token per line) -/
+theorem C09_rewrap_example :
+    WrapOK [c09s "1 -2.5 abc\n", c09s "4 5e-3 6 7\n"] ∧ ¬ WrapOK [c09s "2018-05-22 5\n"] ∧ WrapSteer stW 7 ∧
+    rewrapBody 7 [1, 1, 1, 1, 1, 1, 1] [c09s "1 -2.5 abc\n", c09s "4 5e-3 6 7\n"] =
+      [c09s "1\n", c09s "-2.5\n", c09s "abc\n", c09s "4\n", c09s "5e-3\n", c09s "6\n", c09s "7\n"] := by
+  refine ⟨by decide, by decide, by decide, by decide⟩
+
+/-! ## 3. one header section -/
+
+/-- BLANK / COMMENT LINE IN A HEADER SECTION: the section body `l₁ ++ l₂` (no title line inside; `rest` = the rest of the file,
+empty or starting with the next title) gets a blank or comment line `s` anywhere, the window end moves by one: the items
+loop returns the same items. -/
+theorem C09_skip_header (o : Rd.ReadOpts) (p : Rd.Parser) (l₁ l₂ rest : List Str) (first : Nat) (s : Str) (hs : SkipLine s)
+    (h₁ : ∀ b ∈ l₁, Rd.isTitle b = false) (h₂ : ∀ b ∈ l₂, Rd.isTitle b = false)
+    (hrest : rest = [] ∨ ∃ t r, rest = t :: r ∧ Rd.isTitle t = true) (items : List Rd.RItem)
+    (h : Rd.itemsLoop o p (first + (l₁ ++ l₂).length) ((l₁ ++ l₂) ++ rest) first = .ok items) :
+    Rd.itemsLoop o p (first + (l₁ ++ s :: l₂).length) ((l₁ ++ s :: l₂) ++ rest) first = .ok items := by
+  have hb : ∀ b ∈ l₁ ++ l₂, Rd.isTitle b = false := fun b hb => by
+    rcases List.mem_append.mp hb with h | h
+    · exact h₁ b h
+    · exact h₂ b h
+  have hb' : ∀ b ∈ l₁ ++ s :: l₂, Rd.isTitle b = false := fun b hb => by
+    rcases List.mem_append.mp hb with h | h
+    · exact h₁ b h
+    · rcases List.mem_cons.mp h with rfl | h
+      · exact skip_not_title hs
+      · exact h₂ b h
+  rw [(Rd.C05_header_loop o p (l₁ ++ l₂) rest first hb (fun _ => hrest)).1] at h
+  rw [(Rd.C05_header_loop o p (l₁ ++ s :: l₂) rest first hb' (fun e => by simp at e)).1]
+  exact bodyRun_insert o p l₁ l₂ s hs first first items h
+
+theorem C09_blank_header (o : Rd.ReadOpts) (p : Rd.Parser) (l₁ l₂ rest : List Str) (first : Nat) (ws : Str)
+    (h₁ : ∀ b ∈ l₁, Rd.isTitle b = false) (h₂ : ∀ b ∈ l₂, Rd.isTitle b = false)
+    (hrest : rest = [] ∨ ∃ t r, rest = t :: r ∧ Rd.isTitle t = true) (items : List Rd.RItem)
+    (h : Rd.itemsLoop o p (first + (l₁ ++ l₂).length) ((l₁ ++ l₂) ++ rest) first = .ok items) :
+    Rd.itemsLoop o p (first + (l₁ ++ (blanksOf ws ++ nl) :: l₂).length) ((l₁ ++ (blanksOf ws ++ nl) :: l₂) ++ rest) first = .ok items :=
+  C09_skip_header o p l₁ l₂ rest first _ (blank_skip ws) h₁ h₂ hrest items h
+
+theorem C09_comment_header (o : Rd.ReadOpts) (p : Rd.Parser) (l₁ l₂ rest : List Str) (first : Nat) (indent text : Str)
+    (h₁ : ∀ b ∈ l₁, Rd.isTitle b = false) (h₂ : ∀ b ∈ l₂, Rd.isTitle b = false)
+    (hrest : rest = [] ∨ ∃ t r, rest = t :: r ∧ Rd.isTitle t = true) (items : List Rd.RItem)
+    (h : Rd.itemsLoop o p (first + (l₁ ++ l₂).length) ((l₁ ++ l₂) ++ rest) first = .ok items) :
+    Rd.itemsLoop o p (first + (l₁ ++ (commentLine indent text ++ nl) :: l₂).length)
+      ((l₁ ++ (commentLine indent text ++ nl) :: l₂) ++ rest) first = .ok items :=
+  C09_skip_header o p l₁ l₂ rest first _ (comment_skip indent text) h₁ h₂ hrest items h
+
+/-- the text of ~Other is content: a blank line inserted there is part of the result (hence `Insertable`) -/
+theorem C09_other_is_content :
+    Rd.readOther [c09s "~O\n", c09s "a\n", c09s "b\n"] 0 2 = c09s "a\nb" ∧
+    Rd.readOther [c09s "~O\n", c09s "a\n", c09s "\n", c09s "b\n"] 0 3 = c09s "a\n\nb" := ⟨by rfl, by rfl⟩
+
+/-! ## 4. the whole file: single steps and compositions -/
+
+/-- The side condition of a transformation on a document `d`; `st`, `dc` are the steering values and the number of declared
+curves the (base) file was read with.  `False`: not covered by the whole-file theorem (see the header of this file). -/
+def OK (st : Steer) (dc : Nat) : Transform → Doc → Prop
+  | .insBlank k _, d => Insertable (ctxAt .pre d k)
+  | .insComment k _ _, d => Insertable (ctxAt .pre d k)
+  | .padLine _ _ _, _ => True
+  | .repadLine k dlm _, d =>
+    dlm = .space ∧ st.delimiter = .space ∧
+      ∀ a, d[k]? = some a → Rd.isTitle a = false ∧ QuoteFree a ∧ ∃ t, ctxAt .pre d k = .sec t ∧ isDataKind (kindOf t)
+  | .relayout k sec _ p1 p2 p3 p4 _, d => RelayoutOK d k sec p1 p2 p3 p4
+  | .crlf, d => ∀ l ∈ d, NoInnerNl l
+  | .lf, _ => True
+  | .dropFinalNewline, d => ∀ l, d.getLast? = some l → (splitEol l).1 = [] → Insertable (ctxAt .pre d (d.length - 1))
+  | .addFinalNewline, _ => True
+  | .rewrap first last _ _, d =>
+    ∃ pre s₁ t body s₂, d = pre ++ Rd.flat (s₁ ++ (t, body) :: s₂) ∧ (∀ x ∈ pre, Rd.isTitle x = false) ∧
+      Rd.WellFormed (s₁ ++ (t, body) :: s₂) ∧ first = pre.length + Rd.size s₁ ∧ last = pre.length + Rd.size s₁ + body.length ∧
+      isDataKind (kindOf t) ∧ WrapOK body ∧ WrapSteer st dc
+  | .redelim _ _ _ _ _ _ _, _ => False
+
+/-- SINGLE STEP. A readable document (`Base`: `readFull d = .ok r`, engines agreeing on its data sections) and one
+transformation whose side condition holds: the transformed document is readable with the same steering values and the same
+parsed result — header items of all sections, ~Other text, curves of all data sections — and is again a `Base`. -/
+theorem C09_step (o : Opts) (nullOf : Option Str → Option Str) (ft : FloatTable) (htf : TildeNotFloat ft)
+    (t : Transform) (d : Doc) (r : FullRead) (hb : Base o nullOf ft d r)
+    (hok : OK (dtSteer nullOf r.steer) (declaredCount r.sections) t d) :
+    ∃ r', Base o nullOf ft (t.apply d) r' ∧ r'.steer = r.steer ∧ r'.parsed = r.parsed := by
+  cases t with
+  | insBlank k ws => exact base_sim o nullOf ft htf _ d _ r (sim_insBlank _ d k ws hok) hb rfl
+  | insComment k i tx => exact base_sim o nullOf ft htf _ d _ r (sim_insComment _ d k i tx hok) hb rfl
+  | padLine k a b => exact base_sim o nullOf ft htf _ d _ r (sim_padLine _ d k a b) hb rfl
+  | repadLine k dlm seps =>
+    obtain ⟨rfl, hd, h⟩ := hok
+    exact base_sim o nullOf ft htf .space d _ r (sim_repadLine_space d k seps h) hb hd
+  | relayout k sec p0 p1 p2 p3 p4 p5 => exact base_sim o nullOf ft htf _ d _ r (sim_relayout _ d k sec p0 p1 p2 p3 p4 p5 hok) hb rfl
+  | crlf => exact base_sim o nullOf ft htf _ d _ r (sim_crlf _ d hok) hb rfl
+  | lf => exact base_sim o nullOf ft htf _ d _ r (sim_lf _ d) hb rfl
+  | dropFinalNewline => exact base_sim o nullOf ft htf _ d _ r (sim_dropFinalNewline _ d hok) hb rfl
+  | addFinalNewline => exact base_sim o nullOf ft htf _ d _ r (sim_addFinalNewline _ d) hb rfl
+  | rewrap first last dcl widths =>
+    obtain ⟨pre, s₁, t, body, s₂, rfl, hpre, hw, rfl, rfl, hk, hwo, hst⟩ := hok
+    exact base_rewrap o nullOf ft htf pre s₁ s₂ t body dcl widths r hpre hw hk hwo hb hst
+  | redelim f l vk rp a b seps => exact absurd hok (by simp [OK])
+
+theorem C09_step_readModel (o : Opts) (nullOf : Option Str → Option Str) (ft : FloatTable) (htf : TildeNotFloat ft)
+    (t : Transform) (d : Doc) (r : FullRead) (hb : Base o nullOf ft d r)
+    (hok : OK (dtSteer nullOf r.steer) (declaredCount r.sections) t d) :
+    readModel o nullOf ft (t.apply d) = readModel o nullOf ft d := by
+  obtain ⟨r', hb', _, hp⟩ := C09_step o nullOf ft htf t d r hb hok
+  unfold readModel
+  rw [hb'.read, hb.read]
+  simp only [Except.map, hp]
+
+/-- LF → CRLF, whole file: for a TEXT (split into lines as `io.StringIO` does) there is no side condition at all -/
+theorem C09_crlf (o : Opts) (nullOf : Option Str → Option Str) (ft : FloatTable) (htf : TildeNotFloat ft) (text : Str) (r : FullRead)
+    (hb : Base o nullOf ft (Rd.splitLines text) r) :
+    readModel o nullOf ft (crlf (Rd.splitLines text)) = readModel o nullOf ft (Rd.splitLines text) ∧
+    readModel o nullOf ft (lf (Rd.splitLines text)) = readModel o nullOf ft (Rd.splitLines text) :=
+  ⟨C09_step_readModel o nullOf ft htf .crlf _ r hb (splitLines_physical text),
+   C09_step_readModel o nullOf ft htf .lf _ r hb trivial⟩
+
+/-- the final newline, whole file: adding it is always harmless; omitting it is, unless the last line is nothing but its
+terminator and stands in a ~Other section (then a line of the ~Other text disappears) -/
+theorem C09_final_newline (o : Opts) (nullOf : Option Str → Option Str) (ft : FloatTable) (htf : TildeNotFloat ft) (d : Doc) (r : FullRead)
+    (hb : Base o nullOf ft d r)
+    (h : ∀ l, d.getLast? = some l → (splitEol l).1 = [] → Insertable (ctxAt .pre d (d.length - 1))) :
+    readModel o nullOf ft (dropFinalNewline d) = readModel o nullOf ft d ∧
+    readModel o nullOf ft (addFinalNewline d) = readModel o nullOf ft d :=
+  ⟨C09_step_readModel o nullOf ft htf .dropFinalNewline d r hb h, C09_step_readModel o nullOf ft htf .addFinalNewline d r hb trivial⟩
+
+/-- a blank line or a '#' comment line (indented or not, whatever its text — hyphens, '~', digits) before ANY line of the file,
+or after the last one, provided the place is not inside a ~Other section -/
+theorem C09_blank_comment_anywhere (o : Opts) (nullOf : Option Str → Option Str) (ft : FloatTable) (htf : TildeNotFloat ft) (d : Doc)
+    (r : FullRead) (hb : Base o nullOf ft d r) (k : Nat) (ws indent text : Str) (hi : Insertable (ctxAt .pre d k)) :
+    readModel o nullOf ft (insBlank k ws d) = readModel o nullOf ft d ∧
+    readModel o nullOf ft (insComment k indent text d) = readModel o nullOf ft d :=
+  ⟨C09_step_readModel o nullOf ft htf (.insBlank k ws) d r hb hi, C09_step_readModel o nullOf ft htf (.insComment k indent text) d r hb hi⟩
+
+/-- new blanks/TABs around any line — header item, title, data, comment, ~Other text -/
+theorem C09_padding (o : Opts) (nullOf : Option Str → Option Str) (ft : FloatTable) (htf : TildeNotFloat ft) (d : Doc)
+    (r : FullRead) (hb : Base o nullOf ft d r) (k : Nat) (lead trail : Str) :
+    readModel o nullOf ft (padLine k lead trail d) = readModel o nullOf ft d :=
+  C09_step_readModel o nullOf ft htf (.padLine k lead trail) d r hb trivial
+
+/-- the side conditions hold along the way -/
+def Chain (st : Steer) (dc : Nat) : List Transform → Doc → Prop
+  | [], _ => True
+  | t :: ts, d => OK st dc t d ∧ Chain st dc ts (t.apply d)
+
+/-- COMPOSITION. Any finite list of transformations whose side conditions hold along the way leaves the parsed result of a
+readable document unchanged. -/
+theorem C09_compose (o : Opts) (nullOf : Option Str → Option Str) (ft : FloatTable) (htf : TildeNotFloat ft)
+    (ts : List Transform) (d : Doc) (r : FullRead) (hb : Base o nullOf ft d r)
+    (hc : Chain (dtSteer nullOf r.steer) (declaredCount r.sections) ts d) :
+    ∃ r', Base o nullOf ft (applyAll ts d) r' ∧ r'.steer = r.steer ∧ r'.parsed = r.parsed := by
+  induction ts generalizing d r with
+  | nil => exact ⟨r, hb, rfl, rfl⟩
+  | cons t ts ih =>
+    obtain ⟨hok, hrest⟩ := hc
+    obtain ⟨r1, hb1, hs1, hp1⟩ := C09_step o nullOf ft htf t d r hb hok
+    have hsec : r1.sections = r.sections := congrArg Parsed.sections hp1
+    rw [← hs1, ← hsec] at hrest
+    obtain ⟨r2, hb2, hs2, hp2⟩ := ih (t.apply d) r1 hb1 hrest
+    exact ⟨r2, hb2, hs2.trans hs1, hp2.trans hp1⟩
+
+/-- … in terms of `readModel` -/
+theorem C09_compose_readModel (o : Opts) (nullOf : Option Str → Option Str) (ft : FloatTable) (htf : TildeNotFloat ft)
+    (ts : List Transform) (d : Doc) (r : FullRead) (hb : Base o nullOf ft d r)
+    (hc : Chain (dtSteer nullOf r.steer) (declaredCount r.sections) ts d) :
+    readModel o nullOf ft (applyAll ts d) = readModel o nullOf ft d := by
+  obtain ⟨r', hb', _, hp⟩ := C09_compose o nullOf ft htf ts d r hb hc
+  unfold readModel
+  rw [hb'.read, hb.read]
+  simp only [Except.map, hp]
+
+/-- the same on texts (`lasio.read(text)`: `io.StringIO` lines) -/
+theorem C09_compose_text (o : Opts) (nullOf : Option Str → Option Str) (ft : FloatTable) (htf : TildeNotFloat ft)
+    (ts : List Transform) (text : Str) (r : FullRead) (hb : Base o nullOf ft (Rd.splitLines text) r)
+    (hc : Chain (dtSteer nullOf r.steer) (declaredCount r.sections) ts (Rd.splitLines text)) :
+    readModel o nullOf ft (applyAll ts (Rd.splitLines text)) = readModel o nullOf ft (Rd.splitLines text) :=
+  C09_compose_readModel o nullOf ft htf ts _ r hb hc
+
+/-! ## 5. non-vacuity -/
+
+def exDoc : Doc := [c09s "~V\n", c09s "VERS. 2.0 : v\n", c09s "WRAP. NO : w\n", c09s "~C\n", c09s "A.M : a\n", c09s "B.M : b\n",
+  c09s "~A\n", c09s "1 2\n", c09s "3 4\n"]
+def exOpts : Opts := ⟨⟨false, .preserve⟩, ⟨.normal, .strict⟩⟩
+def exTs : List Transform :=
+  [.insBlank 8 (c09s " "), .insComment 1 [] (c09s " 2018-05-22 - note"), .crlf, .padLine 0 (c09s "  ") (c09s "\t"),
+   .repadLine 10 .space [c09s "\t\t"], .dropFinalNewline]
+
+/-- what the example file reads to -/
+def exRead : FullRead :=
+  match readFull exOpts (fun _ => none) ftH exDoc with
+  | .ok r => r
+  | .error _ => ⟨[], Rd.Steer.init, []⟩
+
+/-- the example file is readable (one data section), so it is a `Base` (engine='normal': nothing to assume) -/
+theorem C09_example_base : Base exOpts (fun _ => none) ftH exDoc exRead ∧ exRead.data.length = 1 ∧
+    dtSteer (fun _ => none) exRead.steer = stH ∧ declaredCount exRead.sections = 2 := by
+  refine ⟨⟨by rfl, fun tb _ _ => agreeAlone_of_normal _ _ _ _ _ (by rfl)⟩, by rfl, by rfl, by rfl⟩
+
+theorem C09_example_tilde : TildeNotFloat ftH := by
+  intro t ht
+  cases t with
+  | nil => simp at ht
+  | cons c cs =>
+    simp only [List.head?_cons, Option.some.injEq] at ht
+    subst ht
+    rfl
+
+def exD1 : Doc := (Transform.insBlank 8 (c09s " ")).apply exDoc
+def exD2 : Doc := (Transform.insComment 1 [] (c09s " 2018-05-22 - note")).apply exD1
+def exD3 : Doc := Transform.crlf.apply exD2
+def exD4 : Doc := (Transform.padLine 0 (c09s "  ") (c09s "\t")).apply exD3
+def exD5 : Doc := (Transform.repadLine 10 .space [c09s "\t\t"]).apply exD4
+
+/-- the side conditions of six transformations hold along the way: a blank line before the last data row, a comment (with
+hyphens) as first line of ~V, CRLF, padding around the ~V title line, new separators in the last data row, no final newline -/
+theorem C09_example_chain : Chain stH 2 exTs exDoc := by
+  show OK stH 2 _ exDoc ∧ OK stH 2 _ exD1 ∧ OK stH 2 _ exD2 ∧ OK stH 2 _ exD3 ∧ OK stH 2 _ exD4 ∧ OK stH 2 _ exD5 ∧ True
+  refine ⟨?_, ?_, ?_, trivial, ?_, ?_, trivial⟩
+  · show Insertable (ctxAt .pre exDoc 8); decide
+  · show Insertable (ctxAt .pre exD1 1); decide
+  · show ∀ l ∈ exD2, NoInnerNl l; decide
+  · refine ⟨rfl, rfl, ?_⟩
+    intro a ha
+    have h2 : exD4[10]? = some (c09s "3 4\r\n") := by decide
+    rw [h2] at ha
+    have := (Option.some.inj ha).symm
+    subst this
+    exact ⟨by decide, by decide, c09s "~A\r\n", by decide, by decide⟩
+  · intro l hl he
+    have h2 : exD5.getLast? = some (c09s "3\t\t4\r\n") := by decide
+    rw [h2] at hl
+    have := (Option.some.inj hl).symm
+    subst this
+    exact absurd he (by decide)
+
+/-- … hence (instance of `C09_compose_readModel`) the transformed text reads like the original -/
+theorem C09_example :
+    applyAll exTs exDoc = [c09s "  ~V\t\r\n", c09s "# 2018-05-22 - note\r\n", c09s "VERS. 2.0 : v\r\n", c09s "WRAP. NO : w\r\n",
+      c09s "~C\r\n", c09s "A.M : a\r\n", c09s "B.M : b\r\n", c09s "~A\r\n", c09s "1 2\r\n", c09s " \r\n", c09s "3\t\t4"] ∧
+    readModel exOpts (fun _ => none) ftH (applyAll exTs exDoc) = readModel exOpts (fun _ => none) ftH exDoc := by
+  obtain ⟨hb, _, hst, hdc⟩ := C09_example_base
+  refine ⟨by decide, C09_compose_readModel exOpts _ ftH C09_example_tilde exTs exDoc exRead hb ?_⟩
+  rw [hst, hdc]
+  exact C09_example_chain
 
 end Lasio.Tf
+
+#print axioms Lasio.Tf.C09_strip_is_all
+#print axioms Lasio.Tf.C09_crlf_line
+#print axioms Lasio.Tf.C09_repad_data
+#print axioms Lasio.Tf.C09_header_padding
+#print axioms Lasio.Tf.C09_header_relayout
+#print axioms Lasio.Tf.C09_skip_data
+#print axioms Lasio.Tf.C09_agree_of_plain
+#print axioms Lasio.Tf.C09_rewrap
+#print axioms Lasio.Tf.C09_skip_header
+#print axioms Lasio.Tf.C09_step
+#print axioms Lasio.Tf.C09_crlf
+#print axioms Lasio.Tf.C09_final_newline
+#print axioms Lasio.Tf.C09_blank_comment_anywhere
+#print axioms Lasio.Tf.C09_padding
+#print axioms Lasio.Tf.C09_compose
+#print axioms Lasio.Tf.C09_compose_readModel
+#print axioms Lasio.Tf.C09_example
+#print axioms Lasio.Tf.C09_rewrap_example
